@@ -172,6 +172,18 @@ Lemma cd_orig_refuted :
   cd_quiescent s = true /\ cd_ran s = [] /\ cd_chan s = [1].
 Proof. vm_compute. repeat split. Qed.
 
+(* sendJob's second select is needed: without it a sender that arrives after the close AND after the last worker
+   has left (a Load still running when the finalizer ran) and finds room queues a job nobody will take *)
+Lemma cd_no_recheck_refuted :
+  let s := cd_run CdNoRecheck (cd_init 1 1 [1]) [CdClose; CdWorker 0 false; CdSender 0 true] in
+  cd_quiescent s = true /\ cd_ran s = [] /\ cd_chan s = [1].
+Proof. vm_compute. repeat split. Qed.
+
+Lemma cd_fixed_late_sender :
+  let s := cd_run CdFixed (cd_init 1 1 [1]) [CdClose; CdWorker 0 false; CdSender 0 true; CdSender 0 true] in
+  cd_quiescent s = true /\ cd_ran s = [1] /\ cd_chan s = [].
+Proof. vm_compute. repeat split. Qed.
+
 (* and the same history on the fixed code runs both *)
 Lemma cd_fixed_same_history :
   let s := cd_run CdFixed (cd_init 1 1 [1; 2]) [CdSender 0 true; CdClose; CdWorker 0 false; CdSender 1 false; CdSender 0 true] in
